@@ -136,7 +136,7 @@ TQuiescent == Step("quiescent") /\ UNCHANGED <<avars, scen, pvars, call, wires, 
    ELSE NoFlag
 TPanic == Step("panic") /\ UNCHANGED <<avars, scen, pvars, call, wires, blocked, subv>> /\ Flag(IF stype = "SUB" THEN "C13/panic-on-failing-peer" ELSE "C03/panic")
 THarness == Step("harness_error") /\ UNCHANGED <<avars, scen, pvars, call, wires, blocked, subv>> /\ Flag("harness/script-error")
-Ignored == {"peer_part", "peer_bytes", "released", "recv_call", "recv_pending", "recv_dropped", "send_dropped", "end", "expect_wire", "sub_ret", "sub_dropped"}
+Ignored == {"observed", "peer_part", "peer_bytes", "released", "recv_call", "recv_pending", "recv_dropped", "send_dropped", "end", "expect_wire", "sub_ret", "sub_dropped"}
 TIgnore == l <= NRec /\ E.ev \in Ignored /\ l' = l + 1 /\ UNCHANGED <<avars, scen, pvars, call, wires, blocked, subv>> /\ NoFlag
 TNext == TReset \/ TAttachCall \/ TAttachPending \/ TAttachRet \/ TWrote \/ TCut \/ TPipe \/ TRecvRet \/ TSendCall \/ TSendPending \/ TWire \/ TSendRet
          \/ TSubCall \/ TSubPending \/ TQuiescent \/ TPanic \/ THarness \/ TIgnore
